@@ -12,12 +12,16 @@ androguard.core.analysis.analysis.Analysis. Oracle (validity predicate against v
     those too - requires no leader; the instruction after the branching instruction still does);
   * no instruction other than the last of a block is a goto/if/switch/return/throw.
 The same predicate runs over the methods of the shipped DEX/APK files (model from an own reader + own sweep).
+Histories (cfg_common): a share of the cases goes on after the first analysis - the same parsed DEX object is analysed
+again ('history:reanalyse:*' buckets: the clauses must hold for the blocks of every analysis, judged by identity), or a
+try-free generated method gets another layout installed through EncodedMethod.set_instructions() and is analysed again
+('history:set-instructions:*' buckets: judged against the model of the new layout).
 """
 from vf.checks import cfg_common as K
 
 PROPERTY = 'C10'
 LEVEL = 'exploration'
-RULE = ('generated: batches of 1-6 abstract methods (2-24 instructions, thorough 2-40) drawn by vf.gen.cfggen and shrunk as one value; shipped: every method of every distinct non-emptied DEX under tests/data/APK (quick: all files <= 700 kB completely, two seed-chosen larger files sampled: every method with a try + every 12th, <= 600). non-trivial = the required leaders of the method come from >= 2 different sources among branch target, switch target, after-terminator, try start, handler address; distinct = (code bytes, tries)')
+RULE = ('generated: batches of 1-6 abstract methods (2-24 instructions, thorough 2-40) drawn by vf.gen.cfggen and shrunk as one value; shipped: every method of every distinct non-emptied DEX under tests/data/APK (quick: all files <= 700 kB completely, two seed-chosen larger files sampled: every method with a try + every 12th, <= 600). non-trivial = the required leaders of the method come from >= 2 different sources among branch target, switch target, after-terminator, try start, handler address; distinct = (code bytes, tries); histories (share of the cases, label history:*): 1/4 of the generated batches and every shipped DEX <= 100 kB analyse the SAME parsed DEX object again (second Analysis(d), one more MethodAnalysis(d, m)) and apply the oracle to the blocks of that later analysis; another 1/4 of the generated batches re-assemble each try-free method in another layout (1-4 nops in front, a payload moved), install its disassembly with EncodedMethod.set_instructions() and judge a new MethodAnalysis against the model of the new layout')
 ASSUMPTIONS = [
     'vf/gen/dalvik_spec.py, vf/gen/asm.py, vf/gen/dexgen.py and vf/gen/cfggen.py produce well-formed code items (typed from the Dalvik/DEX specifications; the length table tiles every shipped code item)',
     'reference semantics in vf/model/cfg.py: branch and switch-target offsets are relative to the branching instruction (code units), switch falls through, goto/return*/throw do not; a try covers the instructions whose address lies in [start_addr, start_addr+insn_count)',
